@@ -159,10 +159,21 @@ def safename(name: str) -> str:
     return safe_simple_name(name)
 
 
+UVL_RESERVED_WORDS = {'include', 'namespace', 'imports', 'as', 'features', 'cardinality',
+                      'constraint', 'constraints', 'sum', 'avg', 'len', 'floor', 'ceil',
+                      'String', 'Integer', 'Real', 'Boolean', 'Arithmetic', 'Type',
+                      'or', 'alternative', 'optional', 'mandatory', 'true', 'false'}
+
+
 def safe_simple_name(name: str) -> str:
     if name.startswith("'") and name.endswith("'"):
         return name
-    return f'"{name}"' if any(char not in safecharacters() for char in name) else name
+    if (not name
+            or any(char not in safecharacters() for char in name)
+            or name[0] not in string.ascii_letters
+            or name in UVL_RESERVED_WORDS):
+        return f'"{name}"'
+    return name
 
 
 def safecharacters() -> str:
